@@ -209,6 +209,23 @@ func (c *Ctx) checkComplementFunc() {
 							if !(ifi.Block().Succs[0] == st.Block() || ifi.Block().Succs[0].Dominates(st.Block())) {
 								errOK = false
 							}
+							// the error may be reported through a flag that also stops the loop:
+							// from the not-found edge only error returns are reachable, and no
+							// further element is complemented on the way
+							if !errOK && (ifi.Block().Succs[0] == st.Block() || ifi.Block().Succs[0].Dominates(st.Block())) {
+								nRet, allErr, storesAgain := 0, true, false
+								flagWalk(fn, ifi.Block(), nf, func(b, _ *ssa.BasicBlock) {
+									if b == st.Block() {
+										storesAgain = true
+									}
+								}, func(_ *ssa.Return, kind string) {
+									nRet++
+									if kind != "err" {
+										allErr = false
+									}
+								})
+								errOK = nRet > 0 && allErr && !storesAgain
+							}
 						}
 					}
 				}
@@ -257,6 +274,30 @@ func (c *Ctx) checkReverseFunc() {
 			}
 		}
 	})
+	if len(sts) == 0 {
+		// delegated to the standard library: slices.Reverse(seq) on the whole parameter, called
+		// exactly once on every path
+		var calls []*ssa.Call
+		other := false
+		allInstrs(fn, func(in ssa.Instruction) {
+			if call, ok := in.(*ssa.Call); ok {
+				f := call.Common().StaticCallee()
+				if f != nil && f.Origin() != nil {
+					f = f.Origin()
+				}
+				if f != nil && f.Pkg != nil && f.Pkg.Pkg.Path() == "slices" && f.Name() == "Reverse" {
+					calls = append(calls, call)
+				} else {
+					other = true
+				}
+			}
+		})
+		if len(calls) == 1 && !other && len(fn.Params) == 1 && calls[0].Common().Args[0] == ssa.Value(fn.Params[0]) && calls[0].Block() == fn.Blocks[0] {
+			L.OK("reverse-swap", r.label, "swap of mirrored positions", c.P.Pos(calls[0].Pos()), "slices.Reverse on the whole slice, unconditionally (standard library)")
+			L.Floor("reverse-swap", 1, "one loop")
+			return
+		}
+	}
 	if len(sts) != 2 {
 		L.Bad("reverse-swap", r.label, "swap", c.P.Pos(fn.Pos()), fmt.Sprintf("%d element stores in Reverse, want the 2 of a swap", len(sts)))
 		return
